@@ -368,9 +368,17 @@ func c18RoundTrip(c *engine.Case, pkg *appPkg, uplink bool, cid byte, v appPaylo
 		c.Fail(class+"/registry", fmt.Sprintf("CID %d uplink=%v gives %T", cid, uplink, fresh), nil)
 		return
 	}
-	if err := fresh.UnmarshalBinary(enc); err != nil {
+	// decoded from a receive buffer (with spare capacity) that is used for the next packet afterwards:
+	// the decoded command is a value of its own
+	rx := make([]byte, len(enc), len(enc)+8)
+	copy(rx, enc)
+	if err := fresh.UnmarshalBinary(rx); err != nil {
 		c.Fail(class+"/decode-refuses-own-encoding", fmt.Sprintf("%s -> %x: %v", deepPrint(v), enc, err), nil)
 		return
+	}
+	rx = rx[:cap(rx)]
+	for i := range rx {
+		rx[i] ^= 0xA5
 	}
 	if got, want := deepPrint(fresh), deepPrint(v); got != want {
 		c.Fail(class+"/round-trip-differs", fmt.Sprintf("%s encodes to %x which decodes to %s", want, enc, got), nil)
